@@ -1474,7 +1474,7 @@ BD_Shape<T>::relation_with(const Congruence& cg) const {
   PPL_DIRTY_TEMP_COEFFICIENT(max_value);
   max_value = max_numer / max_denom;
   signed_distance = max_value % modulus;
-  max_value += signed_distance;
+  max_value -= signed_distance;
   if (max_value * max_denom > max_numer) {
     max_value -= modulus;
   }
@@ -1484,9 +1484,15 @@ BD_Shape<T>::relation_with(const Congruence& cg) const {
   if (max_value < min_value) {
     return Poly_Con_Relation::is_disjoint();
   }
-  else {
-    return Poly_Con_Relation::strictly_intersects();
+  // If the expression has a single value on the shape and that value
+  // satisfies the congruence, then the shape is included.
+  if (min_value == max_value
+      && min_value * min_denom == min_numer
+      && max_value * max_denom == max_numer) {
+    return Poly_Con_Relation::saturates()
+      && Poly_Con_Relation::is_included();
   }
+  return Poly_Con_Relation::strictly_intersects();
 }
 
 
